@@ -109,7 +109,7 @@ def load_findings(prop):
         return []
     with open(path) as fd:
         data = json.load(fd)
-    return [f for f in data.get('findings', []) if f.get('property') == prop]
+    return [f for f in data.get('findings', []) if f.get('property') == prop or prop in f.get('also', ())]
 
 
 def open_signatures(prop):
